@@ -94,56 +94,78 @@ def _finding_keys(pid, mod, repo):
     return keys
 
 
-def run(pid, mod, repo, baseline_keys):
+def _one(args):
+    """Worker: apply one recorded change to a private scratch copy and run the property's rules on it."""
+    pid, kind, label, payload, rule, repo, baseline_keys, tmp, n = args
+    import importlib
+    mod = importlib.import_module('sa.props.' + pid)
+    scratch = os.path.join(tmp, 'm%d' % n)
+    os.makedirs(scratch)
+    outcome, new_keys = None, []
+    try:
+        _copy_sources(repo, scratch)
+        if kind == 'edit':
+            rel, old, new = payload
+            p = os.path.join(scratch, rel)
+            try:
+                s = open(p, encoding='utf-8').read()
+            except OSError:
+                s = None
+            if s is None or s.count(old) != 1:
+                outcome = 'stale'
+            else:
+                open(p, 'w', encoding='utf-8').write(s.replace(old, new))
+        else:
+            pr = subprocess.run(['patch', '-p1', '--no-backup-if-mismatch', '-F3', '-s', '-i', payload], cwd=scratch,
+                                stdout=subprocess.PIPE, stderr=subprocess.STDOUT, text=True)
+            if pr.returncode != 0:
+                outcome = 'stale'
+        if outcome is None:
+            try:
+                keys = _finding_keys(pid, mod, scratch)
+                new_keys = sorted(keys - set(baseline_keys))
+                outcome = 'killed' if new_keys else 'survived'
+            except AnalysisError as e:
+                new_keys = ['<analysis-error: %s>' % str(e)[:120]]
+                outcome = 'refused'
+            except Exception as e:       # a crash of the checker on the mutated copy is a refusal, not a report
+                new_keys = ['<checker error: %s: %s>' % (type(e).__name__, str(e)[:100])]
+                outcome = 'refused'
+    finally:
+        shutil.rmtree(scratch, ignore_errors=True)
+    return {'mutant': label, 'expected_rule': rule, 'outcome': outcome, 'first_new_finding': new_keys[0] if new_keys else None}
+
+
+def run(pid, mod, repo, baseline_keys, jobs=None):
     res = {'mutants': 0, 'killed': 0, 'stale': 0, 'survived': [], 'details': []}
     muts = mutants_for(pid)
     if not muts:
         return res
     tmp = tempfile.mkdtemp(prefix='verif_selfcheck_%s_' % pid)
     try:
+        work = []
         for kind, label, payload, rule in muts:
             if kind == 'note':
                 res['details'].append({'mutant': label, 'outcome': 'note'})
                 continue
             res['mutants'] += 1
-            scratch = os.path.join(tmp, 'm%d' % res['mutants'])
-            os.makedirs(scratch)
-            _copy_sources(repo, scratch)
-            outcome = None
-            if kind == 'edit':
-                rel, old, new = payload
-                p = os.path.join(scratch, rel)
-                try:
-                    s = open(p, encoding='utf-8').read()
-                except OSError:
-                    s = None
-                if s is None or s.count(old) != 1:
-                    outcome = 'stale'
-                else:
-                    open(p, 'w', encoding='utf-8').write(s.replace(old, new))
-            else:
-                pr = subprocess.run(['patch', '-p1', '--no-backup-if-mismatch', '-F3', '-s', '-i', payload], cwd=scratch,
-                                    stdout=subprocess.PIPE, stderr=subprocess.STDOUT, text=True)
-                if pr.returncode != 0:
-                    outcome = 'stale'
-            if outcome is None:
-                try:
-                    keys = _finding_keys(pid, mod, scratch)
-                    new_keys = sorted(keys - baseline_keys)
-                    outcome = 'killed' if new_keys else 'survived'
-                except AnalysisError as e:
-                    new_keys = ['<analysis-error: %s>' % str(e)[:120]]
-                    outcome = 'refused'
-            else:
-                new_keys = []
-            if outcome == 'killed':
+            work.append((pid, kind, label, payload, rule, repo, sorted(baseline_keys), tmp, res['mutants']))
+        jobs = jobs or int(os.environ.get('VERIF_JOBS', '0') or 0) or min(16, os.cpu_count() or 1)
+        if jobs > 1 and len(work) > 1:
+            import concurrent.futures as cf
+            import multiprocessing as mp
+            with cf.ProcessPoolExecutor(max_workers=min(jobs, len(work)), mp_context=mp.get_context('fork')) as ex:
+                results = list(ex.map(_one, work))
+        else:
+            results = [_one(w) for w in work]
+        for d in results:
+            if d['outcome'] == 'killed':
                 res['killed'] += 1
-            elif outcome == 'stale':
+            elif d['outcome'] == 'stale':
                 res['stale'] += 1
             else:
-                res['survived'].append(label + ('' if outcome == 'survived' else ' (%s)' % outcome))
-            res['details'].append({'mutant': label, 'expected_rule': rule, 'outcome': outcome, 'first_new_finding': new_keys[0] if new_keys else None})
-            shutil.rmtree(scratch, ignore_errors=True)
+                res['survived'].append(d['mutant'] + ('' if d['outcome'] == 'survived' else ' (%s)' % d['outcome']))
+            res['details'].append(d)
     finally:
         shutil.rmtree(tmp, ignore_errors=True)
     return res
